@@ -157,7 +157,18 @@ def tlc_simulate(module, cfg, num, depth, seed_, timeout=300, extra_files=None):
                     raise Inconclusive("cannot parse TLC history: %s: %s" % (e, body[:200]))
         if not hists:
             raise Inconclusive("TLC simulation produced no behaviours (rc=%s):\n%s" % (rc, out[-3000:]))
-        return hists
+        # In simulation mode TLC evaluates the printing invariant on every successor of the walk's last state, so one
+        # walk prints a run of histories that differ only in their final step. Keep one per walk (chosen by the seed),
+        # otherwise the first `num` histories would come from a handful of walks.
+        import random
+        rnd = random.Random(seed_)
+        groups = []
+        for h in hists:
+            if groups and len(groups[-1][0]) == len(h) and groups[-1][0][:-1] == h[:-1]:
+                groups[-1].append(h)
+            else:
+                groups.append([h])
+        return [rnd.choice(g) for g in groups]
     finally:
         shutil.rmtree(d, ignore_errors=True)
 
@@ -205,16 +216,19 @@ def tlc_validate(module, cfg, trace_path, timeout=600, extra_files=None, dfs=Fal
             raise Inconclusive("trace validation gave no result (rc=%s):\n%s" % (rc, out[-4000:]))
         consumed, total, badtxt = int(m.group(1)), int(m.group(2)), m.group(3)
         bad = None
-        mb = re.search(r"line \|-> (\d+)", badtxt)
+        mb = re.search(r"line\s*\|->\s*(\d+)", badtxt)
         if mb and int(mb.group(1)) > 0:
             cats = re.findall(r'"(\w+)"', badtxt.split("cats", 1)[1]) if "cats" in badtxt else []
-            cats = re.findall(r'"(\w+)"', re.search(r"cats \|-> \{([^}]*)\}", badtxt).group(1))
+            cats = re.findall(r'"(\w+)"', re.search(r"cats\s*\|->\s*\{([^}]*)\}", badtxt).group(1))
             bad = {"line": int(mb.group(1)), "cats": sorted(set(cats)), "model": " ".join(badtxt.split())[:3000]}
         allbad = []
         ma = re.search(r'<<\s*"TRACE-ALL",(.*?)<<\s*"TRACE-RESULT"', out, re.S)
         if ma:
-            for mm in re.finditer(r"line \|-> (\d+), cats \|-> \{([^}]*)\}", ma.group(1)):
-                allbad.append({"line": int(mm.group(1)), "cats": sorted(re.findall(r'"(\w+)"', mm.group(2)))})
+            # TLC prints record fields in its own order: accept line/cats in either order
+            for mm in re.finditer(r"\[([^\[\]]*)\]", ma.group(1)):
+                ml, mc = re.search(r"line\s*\|->\s*(\d+)", mm.group(1)), re.search(r"cats\s*\|->\s*\{([^}]*)\}", mm.group(1))
+                if ml and mc:
+                    allbad.append({"line": int(ml.group(1)), "cats": sorted(re.findall(r'"(\w+)"', mc.group(1)))})
         ms = re.search(r"(\d+) states generated, (\d+) distinct states found", out)
         return {"allbad": allbad, "consumed": consumed, "total": total, "bad": bad, "wall": time.time() - t0,
                 "states": int(ms.group(1)) if ms else 0, "distinct": int(ms.group(2)) if ms else 0, "out": out}
